@@ -49,6 +49,8 @@ type c20Case struct {
 	// TrailerPoll: s2c on response-streaming kinds: at every quiescent point the client also asks for Trailer() (a
 	// logging wrapper, a poll for completion): that call takes nothing out of the stream
 	TrailerPoll bool `json:",omitempty"`
+	// FinishGoexit: c2s with ending peer-finish: the handler's goroutine ends with runtime.Goexit() instead of returning
+	FinishGoexit bool `json:",omitempty"`
 }
 
 type c20Obs struct {
@@ -181,6 +183,11 @@ func propC20(c c20Case) *Outcome {
 			case reply := <-recvToken:
 				reply <- stream.RecvMsg(new(pb.Message))
 			case <-hReturn:
+				if c.FinishGoexit {
+					// the handler's goroutine is ended from the inside (t.Fatal / t.FailNow / require.* called in a
+					// handler do this): the peer has finished all the same
+					runtime.Goexit()
+				}
 				if c.FinishErr {
 					// bails out with trailers and an error: more final frames than the one-message slot holds
 					if c.Pending != "helper" {
@@ -436,6 +443,7 @@ func genC20(t *rapid.T) c20Case {
 		c.Pending = "message"
 	}
 	c.TrailerPoll = c.Dir == "s2c" && serverStreaming(c.Kind) && rapid.IntRange(0, 2).Draw(t, "trailerpoll") == 0
+	c.FinishGoexit = c.Dir == "c2s" && c.Ending == "peer-finish" && rapid.IntRange(0, 3).Draw(t, "goexit") == 0
 	if thorough() && rapid.IntRange(0, 9).Draw(t, "heap") == 0 {
 		c.Heap, c.Size, c.N = true, 1<<20, 48
 	}
